@@ -32,6 +32,8 @@ pub struct Vlan {
     header: RefCell<VlanHeader>,
     pub rawdata: RefCell<Rc<Vec<u8>>>, // Raw data of the entire packet
     pub offset: usize,                 // Offset of the VLAN header
+    // the selector as captured: it decides which layer follows, whatever the field is set to later
+    announced: EtherType,
     pub inner: RefCell<Option<Rc<Object>>>, // Inner packet
 }
 
@@ -115,6 +117,7 @@ impl Vlan {
         let vlan_id = (((rawdata[off] as u16) & 0x0F) << 8) | (rawdata[off + 1] as u16);
         let ethertype = EtherType(((rawdata[off + 2] as u16) << 8) | (rawdata[off + 3] as u16));
         let offset = off + VLAN_HEADER_SIZE;
+        let announced = ethertype.clone();
         let header = RefCell::new(VlanHeader {
             priority,
             dei,
@@ -125,11 +128,12 @@ impl Vlan {
             header,
             rawdata: RefCell::new(rawdata),
             offset,
+            announced,
             inner: RefCell::new(None),
         })
     }
     pub fn get_ethertype_raw(&self) -> EtherType {
-        self.header.borrow().ethertype.clone()
+        self.announced.clone()
     }
     pub fn get_priority(&self) -> Rc<Object> {
         let priority: u8 = self.header.borrow().priority.clone().into();
